@@ -10,16 +10,120 @@ close_notify it never reports APPDATA, never accepts an application send, and ev
 """
 import json
 import vlib, sesslib
-from sesslib import CONFIGS, attacker_records, prefix_script, parse_steps
+from sesslib import CONFIGS, DTLS_CONFIGS, attacker_records, prefix_script, parse_steps
 
-KILLERS = ["plain_app", "plain_alert_fatal", "plain_close_notify", "long_alert", "ccs_bad", "bad_type", "bad_len_big", "garbage_sealed", "garbage_hs", "plain_alert_warn"]
+KILLERS = ["plain_app", "plain_alert_fatal", "plain_alert_fatal_noreneg", "plain_close_notify", "long_alert", "ccs_bad", "bad_type", "bad_len_big", "garbage_sealed", "garbage_hs", "plain_alert_warn"]
+
+
+# DTLS: events at every point of a session's life.  The first group kills (a fatal alert goes out or comes in, or close_notify
+# comes in) when the record is taken: expected epoch, fresh sequence number.  The second group are records DTLS drops without
+# decrypting them (other epoch / replayed sequence number): by the reading stated in run() they must NOT harm the session.
+DTLS_KILLERS = ["plain_app@ecur/fresh", "plain_alert_fatal@ecur/fresh", "plain_alert_fatal_noreneg@ecur/fresh", "plain_close_notify@ecur/fresh", "long_alert@ecur/fresh", "ccs_bad@ecur/fresh",
+                "bad_type@ecur/fresh", "bad_len_big@ecur/fresh", "garbage_sealed@ecur/fresh", "garbage_hs@ecur/fresh", "plain_alert_warn@ecur/fresh",
+                "truncated@ecur/fresh"]
+DTLS_DROPPED = ["plain_alert_fatal@e0/fresh", "plain_alert_fatal@ecur/replayed", "plain_alert_fatal@enext/fresh", "plain_close_notify@e0/far",
+                "garbage_sealed@ecur/replayed", "garbage_sealed@enext/fresh", "plain_app@e0/fresh", "ccs@enext/fresh", "ccs@e0/fresh", "garbage_hs@enext/far"]
+
+
+def build_dtls(ck, sr, cfgs, seeds, scripts, inj_desc, meta):
+    for name in cfgs:
+        cfg = DTLS_CONFIGS[name]
+        for seed in seeds:
+            trace, tout = sr.legal_trace(cfg, seed)
+            if not trace:
+                continue
+            states = sesslib.side_states(tout, cfg)
+            n = len(trace)
+            for k in range(n + 1):
+                base = prefix_script(cfg, seed, trace, k)
+                rest = trace[k:]
+                for side in ("c", "s"):
+                    stt = states[k][side] if k < len(states) else None
+                    xe, lr = (stt["xe"], stt["lr"]) if stt else (0, 0)
+                    atk = {a[0]: a for a in sesslib.dtls_attacker_records(cfg, xe, lr, True)}
+                    other = "s" if side == "c" else "c"; din = "c2s" if side == "s" else "s2c"
+                    cont_steps = "".join(" ; step %s" % d for d in rest[:3])
+                    g2 = sesslib.drec_bytes(23, bytes((7 * i + 3) & 255 for i in range(40)), sesslib.wire_version(cfg), xe, lr + 2)
+                    p2 = sesslib.drec_bytes(23, b"hello", sesslib.wire_version(cfg), xe, lr + 3)
+                    d_g2 = dict(hdr="ok", outer=23, prot="bad", inner=23, l=40, ep=xe, sq=lr + 2)
+                    d_p2 = dict(hdr="ok", outer=23, prot="plain", inner=23, l=5, ep=xe, sq=lr + 3)
+                    for kn in DTLS_KILLERS + DTLS_DROPPED:
+                        if kn not in atk:
+                            continue        # (epoch 0 is the expected epoch early in the handshake: the variant does not exist there)
+                        an, raw, d = atk[kn]
+                        for cont, cdesc in ((cont_steps + " ; app %s 6869 ; app %s 6869 ; step %s ; step %s" % (other, side, din, din), []),
+                                            (" ; inj %s %s ; closure %s ; inj %s %s" % (side, g2.hex(), side, side, p2.hex()), [d_g2, d_p2]),
+                                            # the application's retransmission timer after the event, then the valid next records
+                                            (" ; resend %s ; resend %s" % (side, side) + cont_steps + " ; app %s 6869 ; st" % side, [])):
+                            i = len(scripts)
+                            scripts.append(base + " ; inj %s %s" % (side, raw.hex()) + cont + " ; st")
+                            inj_desc[i] = [d] + cdesc; meta.append((name, k, side, ("dropped:" if kn in DTLS_DROPPED else "") + kn))
+                if k < n:
+                    d0 = trace[k]; to = "s" if d0 == "c2s" else "c"
+                    for off in (13, -1):
+                        i = len(scripts)
+                        offs = "13" if off == 13 else "LAST"
+                        scripts.append(base + " ; save %s 3 ; xor %s %s 01 ; step %s ; replay %s 3 ; app %s 6869 ; resend %s ; st" % (d0, d0, offs, d0, to, to, to)
+                                       + "".join(" ; step %s" % d for d in rest[1:3]))
+                        inj_desc[i] = [None]; meta.append((name, k, to, "corrupt@%s" % offs))
+            full = prefix_script(cfg, seed, trace, n) + " ; app c 61 ; step c2s ; app s 62 ; step s2c"
+            fullnd = prefix_script(cfg, seed, trace, n)        # established, no application data received yet: flight resends still possible
+            for side in ("c", "s"):
+                other = "s" if side == "c" else "c"; din = "c2s" if side == "s" else "s2c"
+                stt = states[n][side] if n < len(states) else None
+                xe, lr = (stt["xe"], stt["lr"]) if stt else (1, 0)
+                for (fb, tag, lrx) in ((full, "est", lr + 1), (fullnd, "est0", lr)):      # (est: one data record has been received since the handshake)
+                    atk = {a[0]: a for a in sesslib.dtls_attacker_records(cfg, xe, lrx, True)}
+                    for kn in DTLS_KILLERS + DTLS_DROPPED:
+                        if kn not in atk:
+                            continue
+                        an, raw, d = atk[kn]
+                        i = len(scripts)
+                        scripts.append(fb + " ; app %s 63 ; save %s 4 ; inj %s %s ; resend %s ; step %s ; replay %s 4 ; app %s 64 ; resend %s ; st" % (
+                            other, din, side, raw.hex(), side, din, side, side, side))
+                        inj_desc[i] = [d, None]; meta.append((name, n, side, tag + ":" + ("dropped:" if kn in DTLS_DROPPED else "") + kn))
+                i = len(scripts)
+                scripts.append(full + " ; app %s 63 ; save %s 4 ; xor %s LAST 80 ; step %s ; replay %s 4 ; app %s 64 ; app %s 65 ; step %s ; st" % (other, din, din, din, side, side, other, din))
+                inj_desc[i] = [None]; meta.append((name, n, side, "est:corrupt"))
+                # a misbehaving authenticated peer (a late ChangeCipherSpec is legal under DTLS - retransmitted flights - and ignored)
+                for (rt, ht, body, nm, must_die) in ((22, 0, "-", "HelloRequest", side == "s"), (22, 1, "0303" + "00" * 32 + "00", "ClientHello", side == "c"),
+                                                     (22, 20, "00" * 12, "Finished", True), (22, 14, "-", "ServerHelloDone", True), (22, 11, "000000", "Certificate", True),
+                                                     (21, 0, "0228", "fatal-alert-handshake_failure", True), (21, 0, "0264", "fatal-alert-no_renegotiation", True),
+                                                     (21, 0, "025a", "fatal-alert-user_canceled", True), (21, 0, "0100", "close_notify", True)):
+                    for fb in (full, fullnd):
+                        i = len(scripts)
+                        scripts.append(fb + " ; forge %s %d %d %s ; step %s ; resend %s ; step %s 3 ; app %s 6869 ; step %s ; app %s 6a ; resend %s ; st" % (
+                            other, rt, ht, body, din, side, "s2c" if din == "c2s" else "c2s", other, din, side, side))
+                        meta.append((name, n, side, "illegal:%s:%s" % (nm, "must-die" if must_die else "may-refuse")))
+                i = len(scripts)
+                scripts.append(full + " ; closure %s ; step %s ; app %s 66 ; app %s 67 ; step %s ; resend %s ; st" % (other, din, side, other, din, side))
+                meta.append((name, n, side, "est:close_notify"))
+    return scripts, inj_desc, meta
+
+
+def load_corpus(scripts, inj_desc, meta):
+    """corpus/C15/*.case: one script per line (`#` comments); kept defect witnesses, always run"""
+    import os, glob
+    for f in sorted(glob.glob(os.path.join(vlib.VERIF, "corpus", "C15", "*.case"))):
+        for line in open(f):
+            line = line.strip()
+            if not line or line.startswith("#"):
+                continue
+            desc = None
+            if " ## " in line:
+                line, dj = line.split(" ## ", 1); desc = json.loads(dj)
+            i = len(scripts)
+            scripts.append(line.strip())
+            if desc is not None:
+                inj_desc[i] = desc
+            meta.append(("corpus", 0, "-", "corpus:" + os.path.basename(f)))
 
 
 def build(ck, sr, cfgs, seeds):
     scripts, inj_desc, meta = [], {}, []
-    atk = {a[0]: a for a in attacker_records(None)}
     for name in cfgs:
         cfg = CONFIGS[name]
+        atk = {a[0]: a for a in attacker_records(cfg)}
         for seed in seeds:
             trace, _ = sr.legal_trace(cfg, seed)
             if not trace:
@@ -75,7 +179,10 @@ def build(ck, sr, cfgs, seeds):
                 for (rt, ht, body, nm, must_die) in ((22, 0, "-", "HelloRequest", side == "s"),          # only servers send it
                                                      (22, 1, "0303" + "00" * 32 + "00", "ClientHello", side == "c"),   # only clients send it
                                                      (22, 20, "00" * 12, "Finished", True), (22, 14, "-", "ServerHelloDone", True),
-                                                     (22, 11, "000000", "Certificate", True), (20, 0, "01", "ChangeCipherSpec", True)):
+                                                     (22, 11, "000000", "Certificate", True), (20, 0, "01", "ChangeCipherSpec", True),
+                                                     # alerts the authenticated peer may send: every fatal one and close_notify end the session
+                                                     (21, 0, "0228", "fatal-alert-handshake_failure", True), (21, 0, "0264", "fatal-alert-no_renegotiation", True),
+                                                     (21, 0, "025a", "fatal-alert-user_canceled", True), (21, 0, "0100", "close_notify", True)):
                     if "cv=4" in cfg and rt == 20:
                         continue        # TLS 1.3 ignores CCS records by design
                     i = len(scripts)
@@ -107,6 +214,14 @@ def run(ck):
     ck.trusted += ["Coq 8.16.1 kernel", "tools/srcgen translators (consts.c, gen_defines.py)",
                    "extraction (ExtrOcamlBasic only) + ocaml/drv_sess.ml; harness/h_sess.c + sess.h",
                    "modelled, not verified: record-layer control flow of matrixSslDecode* and the encode gates (coq/Sess/SessModel.v), compared step by step with the library on every run; handshake processing is an oracle"]
+    ck.assumptions += ["DTLS reading of C15: DTLS drops records of another epoch and replayed sequence numbers WITHOUT decrypting them (RFC 6347 4.1.2.1 / 4.1.2.6), "
+                       "silently or with a retransmission request. Such a discard is not 'an error the session hit': no alert is sent or received and no error is "
+                       "reported, so the session may live on (theorem c15_dtls_not_accepted_dropped: the drop changes nothing but the expected epoch; checked on the "
+                       "implementation: flags and ssl->err unchanged). Once a DTLS session HAS sent or received a fatal alert, flagged an error or received close_notify it "
+                       "must stay dead exactly as in TLS - including the DTLS-only way of encrypting: matrixDtlsGetOutdata's flight retransmission",
+                       "DTLS: a record that is taken to decryption and fails is fatal in MatrixSSL (RFC 6347 4.1.2.7 would allow discarding it): modelled and checked as fatal",
+                       "the harness follows a DTLS retransmission request / timeout only on flight boundaries (sess.h dtls_resend_safe: the states in which canResend allows "
+                       "a rebuild since /repo eb793e2; before that repair a rebuild in other states dereferenced NULL or used the freed flight list)"]
     ck.build_repo()
     ck.regen([("consts.sh",), ("gen_defines.py",)])
     ck.coq_properties()
@@ -114,6 +229,11 @@ def run(ck):
     cfgs = ["tls12", "tls13", "tls12_cbc", "tls13_cauth", "tls12_resumed_id", "tls13_extpsk"] if ck.tier == "quick" else list(CONFIGS)
     seeds = [ck.seed] if ck.tier == "quick" else [ck.seed, ck.seed + 1]
     scripts, inj_desc, meta = build(ck, sr, cfgs, seeds)
+    dcfgs = ["dtls12", "dtls12_cbc", "dtls12_cauth", "dtls12_resumed_id", "dtls10"] if ck.tier == "quick" else list(DTLS_CONFIGS)
+    ntls = len(scripts)
+    build_dtls(ck, sr, dcfgs, seeds[:1] if ck.tier == "quick" else seeds, scripts, inj_desc, meta)
+    load_corpus(scripts, inj_desc, meta)
+    ck.cov["dtls_scenarios"] = len(scripts) - ntls
     scripts = fix_xor_last(scripts, sr)
     outs = sr.run(scripts)
     import C01
@@ -125,7 +245,12 @@ def run(ck):
             C01.fill_replay_desc(scripts, outs, tmp)
             inj_desc[si] = [dl[0]] + (tmp[si] if tmp[si] else [])
     back = sesslib.analyse(ck, sr, scripts, outs, "session machine after fatal events: decode(model) vs matrixSslReceivedData(impl)", inj_desc)
-    ck.rules.append("killing events (10 attacker records, corruption of each genuine record at first/last byte, peer closure) at every handshake prefix and in the "
+    ck.rules.append("DTLS 1.2 (GCM, CBC, client auth, resumed) and DTLS 1.0: 12 killing records (expected epoch, fresh sequence number; incl. fatal alerts of two descriptions and a truncated datagram) and 10 "
+                    "records DTLS drops unread (epoch 0 / next epoch / replayed sequence number) at every handshake prefix x both sides and in the established state "
+                    "(before and after application data), each followed by the TLS continuations plus the application's retransmission timeout "
+                    "(matrixDtlsGetOutdata with nothing pending) and the valid next records; corruption of each genuine record at first payload / last byte; "
+                    "correctly protected illegal messages, fatal alert and close_notify from the peer, each followed by a timeout")
+    ck.rules.append("killing events (11 attacker records incl. fatal alerts of two descriptions, corruption of each genuine record at first/last byte, peer closure) at every handshake prefix and in the "
                     "established state, each followed by continuations (valid next records, original of the corrupted record, garbage, app send both ways, closure); "
                     "non-trivial = step not refused by the dead-session guard")
     # ---- Impl vs Spec, per script and per side: after death nothing is delivered, nothing is sealed, receives fail
@@ -177,6 +302,13 @@ def run(ck):
                                           {"harness": "h_sess", "script": scripts[si], "observed": out[-800:], "scenario": meta[si]})
                     else:
                         ck.count("refused_after_death")
+                # DTLS: a record dropped silently (no alert either way, no error reported) must not have flagged the session
+                if st.pre["dt"] and not dead[x] and not st.alerts_in and not st.errs and st.post["err"] == st.pre["err"] and not st.appdata:
+                    if (st.post["E"], st.post["C"]) != (st.pre["E"], st.pre["C"]):
+                        ck.spec_violation("dtls-silent-discard-flagged:hs%d" % st.pre["hs"], "a DTLS record that produced neither an alert nor an error left the session flagged",
+                                          {"harness": "h_sess", "script": scripts[si], "observed": st.body, "scenario": meta[si]})
+                    elif st.kind != "step":
+                        ck.count("dtls_injected_record_without_effect_on_flags")
                 # does this step kill side x?
                 ob = st.observed() or ""
                 # a fatal alert going out: ssl->err is set (warning alerts such as the no_renegotiation refusal clear it again)
@@ -192,8 +324,23 @@ def run(ck):
                     dead[x] = "received close_notify"
                 # the peer's view: whoever sent a fatal-level alert (as decoded by the receiver) must be dead too
                 y = "s" if x == "c" else "c"
-                if fatal_in and st.kind == "step" and not dead[y]:
+                # (not when the alert was sealed by the harness on the peer's behalf - `forge`: the peer's library never sent it)
+                forged = ci > 0 and ci - 1 < len(cmds) and cmds[ci - 1].startswith("forge ")
+                if fatal_in and st.kind == "step" and not dead[y] and not forged:
                     dead[y] = "sent a fatal alert"
+            for r in sesslib.parse_resends(seg):
+                # DTLS: the application's retransmission timeout on a dead session must not put anything but the pending alert on the wire
+                x = r["side"]
+                emitted = [t for t in r["recs"] if t[0] != 21]
+                if dead[x] and (emitted or "HSDONE" in r["body"]):
+                    ck.spec_violation("dtls-flight-resent-after-%s:hs%d" % (dead[x].replace(" ", "-"), r["pre"]["hs"]),
+                                      "matrixDtlsGetOutdata encoded and handed out the last handshake flight again (records %s%s) after the session had %s" % (
+                                          emitted, ", matrixDtlsSentData reported HANDSHAKE_COMPLETE" if "HSDONE" in r["body"] else "", dead[x]),
+                                      {"harness": "h_sess", "script": scripts[si], "observed": out[-900:], "scenario": meta[si]})
+                elif dead[x]:
+                    ck.count("dtls_resend_refused_after_death" if "[getout:E" in r["body"] else "dtls_resend_nothing_after_death")
+                elif emitted:
+                    ck.count("dtls_resend_on_live_session")
             m = sesslib.re.match(r"app:([cs]) pre=(\S+) rc=(\S+)", seg)
             if m:
                 x, ok = m.group(1), m.group(3) == "OK"
